@@ -373,7 +373,7 @@ func constSep(s string) *SepLaw {
 func recipeSepLaw(c CharCfg, maxVals int) (*SepLaw, bool) {
 	m := modelChar(c)
 	cnt := m.Count()
-	if cnt.Sign() <= 0 || !cnt.IsInt64() || cnt.Int64() > int64(maxVals) || m.Emptied > 0 {
+	if cnt.Sign() <= 0 || !cnt.IsInt64() || cnt.Int64() > int64(maxVals) {
 		return nil, false
 	}
 	sp := m.SpaceSize()
